@@ -11,9 +11,11 @@ package flight12
 
 import (
 	"context"
+	"crypto/rand"
 
 	dtlsflight "github.com/pion/dtls/v3/internal/flight"
 	"github.com/pion/dtls/v3/pkg/crypto/prf"
+	"github.com/pion/dtls/v3/pkg/protocol"
 	"github.com/pion/dtls/v3/pkg/protocol/alert"
 	"github.com/pion/dtls/v3/pkg/protocol/handshake"
 )
@@ -220,4 +222,50 @@ func zzResumeServerFin() {
 	} else {
 		zzsymCover("rejected_length")
 	}
+}
+
+// The client aborts an abbreviated handshake and the session must go. The real flight1Generate offers a stored
+// session (id of 2 arbitrary bytes, secret of 2 arbitrary bytes); a ServerHello echoing that id arrives together
+// with an epoch-1 server Finished of 12 ARBITRARY bytes; the real flight1Parse / flight3Parse / handleResumption
+// run. Whenever the client refuses (fatal alert: the Finished is not the PRF of the stored secret over the
+// transcript), state.SessionID is STILL the offered, non-empty id when the parser returns - the FSM calls
+// Conn.notify afterwards, and notify deletes the stored session only for a connection that has a session id
+// (zzFatalDropsSession): together "a session on which the client sent a fatal alert is no longer offered".
+//
+//symgo:entry covers=client_abort_keeps_id_for_invalidation,client_accepts
+func zzClientAbortLeavesSessionIDForNotify() {
+	rand.Reader = zzConstReader{}
+	client := zzNewPeer(true)
+	client.conn = zzConn{key: zzClientKey}
+	store := &zzStore{}
+	store.attach(client.cfg)
+	id, secret := zzsymBytes("stored_id", 2), zzsymBytes("stored_secret", 2)
+	store.put(zzClientKey, id, secret)
+	server := zzNewPeer(false) // only a cache to receive the ClientHello
+	if _, a, err := zzSend(client, server, Flight1, nil); a != nil || err != nil {
+		zzsymFail("client_hello_failed")
+	}
+	zzsymAssert(zzsymEqBytes(client.state.SessionID, id), "client_offers_stored_session")
+
+	suiteID := uint16(0xff01)
+	sh := &handshake.Handshake{Message: &handshake.MessageServerHello{
+		Version:           protocol.Version1_2,
+		SessionID:         append([]byte{}, id...),
+		CipherSuiteID:     &suiteID,
+		CompressionMethod: dtlsflight.DefaultCompressionMethods()[0],
+	}}
+	client.cache.Push(zzRaw(sh), 0, 0, handshake.TypeServerHello, false)
+	client.cache.Push(zzMsg(handshake.TypeFinished, 1, zzsymBytes("verify_data", 12)), 1, 1, handshake.TypeFinished, false)
+
+	next, a, err := zzRecv(client, Flight1)
+	if a = zzAlertOf(a, err); a == nil && err == nil {
+		zzsymAssert(next == Flight5b, "accepted_means_flight5b")
+		zzsymCover("client_accepts")
+
+		return
+	}
+	zzsymAssert(a != nil && a.Level == alert.Fatal, "client_abort_is_fatal")
+	zzsymAssert(zzsymEqBytes(client.state.SessionID, id), "aborting_client_still_names_the_session_for_notify")
+	zzsymAssert(len(store.setKeys) == 0, "aborting_client_stores_nothing")
+	zzsymCover("client_abort_keeps_id_for_invalidation")
 }
